@@ -227,6 +227,7 @@ pub fn run_history(n: usize, seq: &[COp], conc: &[COp], seed0: u64, v: &Verdicts
     }
     // ---- concurrent part: two sessions on the primary
     if !reported && !conc.is_empty() {
+        c.sim.fine.store(2, std::sync::atomic::Ordering::SeqCst);
         for o in conc {
             c.send(&format!("s0-{}", o.session), &o.line);
         }
@@ -249,7 +250,10 @@ pub fn run_history(n: usize, seq: &[COp], conc: &[COp], seed0: u64, v: &Verdicts
                     // apply (they come from one node)
                     let sessions: BTreeSet<usize> = conc.iter().filter(|o| o.key == k).map(|o| o.session).collect();
                     let cause = if sessions.len() > 1 { "two-concurrent-primary-sessions-on-one-key" } else { "single-primary-session-on-key" };
-                    let sig = json!({"check": "convergence", "cause": cause, "problem": divergence});
+                    let mut kinds: Vec<&str> = conc.iter().filter(|o| o.key == k).map(|o| o.kind).collect();
+                    kinds.sort();
+                    kinds.dedup();
+                    let sig = json!({"check": "convergence", "cause": cause, "problem": divergence, "concurrent_ops_on_key": kinds});
                     if seen.insert(sig.to_string()) {
                         let detail = format!("{} key {}: primary {:?}, n{} {:?}", db, k, sets[0].get(&db).and_then(|m| m.get(&k)), node, sets[node].get(&db).and_then(|m| m.get(&k)));
                         report(&c, sig, detail, &sets);
